@@ -17,13 +17,17 @@ structure Persist (C : Crypto) (c : Core) (d : Disk) (hf : Header) (a0 : Abs) (e
   trace : Trace C a0 es a
   small0 : Small a0
   fileNodes : NodesOK C a0.blocks {} d.tree
-  fileBits : ∀ i, (Bitfield.ofFile d.bitfield).get i = a0.held i
+  /-- the bitfield store holds `a0`'s bits, or whatever a flush that was cut short may have left -/
+  stable : ∀ i, (∀ e ∈ es, ¬ Touch.Touches e i) → (Bitfield.ofFile d.bitfield).get i = a0.held i
+  kept : ∀ i, a0.held i = true → (Bitfield.ofFile d.bitfield).get i = true ∨ ∃ e ∈ es, Touch.Clears e i
+  low : ∀ i, i < a0.blocks.size → a0.held i = false → (Bitfield.ofFile d.bitfield).get i = false
+  below : ∀ i, (Bitfield.ofFile d.bitfield).get i = true → i < a.blocks.size
   fileSize : d.bitfield.size % Spec.pageBytes = 0
   held0Lt : ∀ i, a0.held i = true → i < a0.blocks.size
   hfLen : hf.tree.length = a0.blocks.size
   hfSig : hf.tree.signature = [] ∨ hf.tree.signature.length = 64
   hfSecret : hf.secret = c.secret
-  hfContig : FirstMissing (Bitfield.ofFile d.bitfield) hf.contiguous
+  hfContig : (∀ i, i < hf.contiguous → a0.held i = true) ∧ a0.held hf.contiguous = false
   dirty : ∀ i, c.bitfield.get i ≠ (Bitfield.ofFile d.bitfield).get i → i / Spec.pageBits ∈ c.bitfield.dirty
   hdrLen : c.header.tree.length = a.blocks.size
   hdrSig : c.header.tree.signature = [] ∨ c.header.tree.signature.length = 64
@@ -76,13 +80,20 @@ theorem persist_append_pre (C : Crypto) (c c1 : Core) (d d1 : Disk) (hf : Header
     trace := trace_snoc C a0 a _ es entry hp.trace hentry hrep.small
     small0 := hp.small0
     fileNodes := by rw [htree]; exact hp.fileNodes
-    fileBits := by rw [hbf]; exact hp.fileBits
+    stable := by rw [hbf]; exact fun i hu => hp.stable i (fun e he => hu e (by simp [he]))
+    kept := by
+      rw [hbf]; intro i hh
+      rcases hp.kept i hh with h1 | ⟨e, he, hc⟩
+      · exact Or.inl h1
+      · exact Or.inr ⟨e, by simp [he], hc⟩
+    low := by rw [hbf]; exact hp.low
+    below := by rw [hbf]; intro i hi; have := hp.below i hi; rw [hsize]; omega
     fileSize := by rw [hbf]; exact hp.fileSize
     held0Lt := hp.held0Lt
     hfLen := hp.hfLen
     hfSig := hp.hfSig
     hfSecret := by rw [hsec2]; exact hp.hfSecret
-    hfContig := by rw [hbf]; exact hp.hfContig
+    hfContig := hp.hfContig
     dirty := by rw [hbf, hbits]; exact dirty_setRange _ _ _ _ _ hp.dirty
     hdrLen := by rw [hlen, hsize]
     hdrSig := Or.inr hsig
@@ -109,13 +120,20 @@ theorem persist_clear_pre (C : Crypto) (c c1 : Core) (d d1 : Disk) (hf : Header)
     trace := trace_snoc C a0 a _ es _ hp.trace (EntryStep.clear a s e hse) hrep.small
     small0 := hp.small0
     fileNodes := by rw [htree]; exact hp.fileNodes
-    fileBits := by rw [hbf]; exact hp.fileBits
+    stable := by rw [hbf]; exact fun i hu => hp.stable i (fun e he => hu e (by simp [he]))
+    kept := by
+      rw [hbf]; intro i hh
+      rcases hp.kept i hh with h1 | ⟨e, he, hc⟩
+      · exact Or.inl h1
+      · exact Or.inr ⟨e, by simp [he], hc⟩
+    low := by rw [hbf]; exact hp.low
+    below := by rw [hbf, hblocks]; exact hp.below
     fileSize := by rw [hbf]; exact hp.fileSize
     held0Lt := hp.held0Lt
     hfLen := hp.hfLen
     hfSig := hp.hfSig
     hfSecret := by rw [hsec2]; exact hp.hfSecret
-    hfContig := by rw [hbf]; exact hp.hfContig
+    hfContig := hp.hfContig
     dirty := by rw [hbf, hbits]; exact dirty_setRange _ _ _ _ _ hp.dirty
     hdrLen := by rw [hhdr, hblocks]; exact hp.hdrLen
     hdrSig := by rw [hhdr]; exact hp.hdrSig
@@ -207,15 +225,16 @@ theorem maybeFlush_persist (C : Crypto) (hC : HashWF C) (c : Core) (d : Disk) (h
         intro dd o hb
         rw [← f1 dd o hb]
         exact node?_congr _ _ _ _ rfl
-      fileBits := by rw [hbfile]; exact hbits
+      stable := by rw [hbfile]; exact fun i _ => hbits i
+      kept := by rw [hbfile]; exact fun i hh => Or.inl (by rw [hbits]; exact hh)
+      low := by rw [hbfile]; exact fun i _ hh => by rw [hbits]; exact hh
+      below := by rw [hbfile]; exact fun i hi => by rw [hbits] at hi; exact hrep.heldLt i hi
       fileSize := by rw [hbfile]; exact g2
       held0Lt := hrep.heldLt
       hfLen := hp.hdrLen
       hfSig := hp.hdrSig
       hfSecret := hp.hdrSecret
-      hfContig := by
-        rw [hbfile]
-        exact firstMissing_congr c.bitfield _ _ g1 hrep.contig
+      hfContig := ⟨fun i hi => by rw [← hrep.bits]; exact hrep.contig.1 i hi, by rw [← hrep.bits]; exact hrep.contig.2⟩
       dirty := by
         rw [hbfile]
         intro i hne
@@ -318,14 +337,7 @@ theorem reopen_persist (C : Crypto) (hC : HashWF C) (hTw : TreeWF C) (c : Core) 
     obtain ⟨_, _, _, _, _, _, _, _, _, _, hok⟩ := hp.oplog
     exact hok
   obtain ⟨h', t', b', hopen, hinv, hs'⟩ := Reopen.reopen_full C hC hTw d ost hf es a0 a [] (fun op hop => by cases hop) hlog hp.hfLen hp.hfSig
-    hp.hfShape hoks hp.fileNodes (fun i _ => hp.fileBits i) (fun i hh => Or.inl (by rw [hp.fileBits]; exact hh))
-    (fun i _ hh => by rw [hp.fileBits]; exact hh)
-    (fun i hi => by
-      rw [hp.fileBits] at hi
-      exact Nat.lt_of_lt_of_le (hp.held0Lt i hi) (Touch.trace_size_le C a0 a es hp.trace))
-    hp.held0Lt
-    ⟨fun i hi => by rw [← hp.fileBits]; exact hp.hfContig.1 i hi, by rw [← hp.fileBits]; exact hp.hfContig.2⟩
-    hp.small0 hp.trace
+    hp.hfShape hoks hp.fileNodes hp.stable hp.kept hp.low hp.below hp.held0Lt hp.hfContig hp.small0 hp.trace
   obtain ⟨hbits', hfm'⟩ := Reopen.rinv_final C t' b' h' d.tree d.bitfield a _ hinv
   refine ⟨_, hopen, ?_, ?_⟩
   · exact {
@@ -344,7 +356,10 @@ theorem reopen_persist (C : Crypto) (hC : HashWF C) (hTw : TreeWF C) (c : Core) 
       trace := hp.trace
       small0 := hp.small0
       fileNodes := hp.fileNodes
-      fileBits := hp.fileBits
+      stable := hp.stable
+      kept := hp.kept
+      low := hp.low
+      below := hp.below
       fileSize := hp.fileSize
       held0Lt := hp.held0Lt
       hfLen := hp.hfLen
@@ -416,13 +431,16 @@ theorem init_both (C : Crypto) (pk sk : Bytes) (hpk : pk.length = 32) (hsk : sk.
       trace := Trace.nil _
       small0 := ⟨by simp, by simp [totalBytes]⟩
       fileNodes := hnodes
-      fileBits := by intro i; rw [hbf]; simp [Bitfield.get]
+      stable := by intro i _; rw [hbf]; simp [Bitfield.get]
+      kept := by intro i hi; simp at hi
+      low := by intro i hi; simp at hi
+      below := by intro i hi; rw [hbf] at hi; simp [Bitfield.get] at hi
       fileSize := by rw [hd1bf]; rfl
       held0Lt := by intro i hi; simp at hi
       hfLen := rfl
       hfSig := Or.inl rfl
       hfSecret := rfl
-      hfContig := by rw [hbf]; exact ⟨fun i hi => by simp [Header.new] at hi, by simp [Bitfield.get]⟩
+      hfContig := ⟨fun i hi => by simp [Header.new] at hi, rfl⟩
       dirty := by intro i hne; exfalso; apply hne; rw [hbf]
       hdrLen := rfl
       hdrSig := Or.inl rfl
